@@ -20,7 +20,109 @@ type waiter struct {
 	val         Value
 	ok          bool
 	closedPanic bool
-	vc          []int // clock of the sender (send waiters) / of the receiver when it blocked (recv waiters)
+	vc          []int     // clock of the sender (send waiters) / of the receiver when it blocked (recv waiters)
+	sel         *selGroup // non-nil: one case of a blocked select
+	idx         int       // case index within the select
+}
+
+// selGroup ties together the waiters a blocked select has queued on its channels: the first one
+// that is served wins, the others are withdrawn.
+type selGroup struct {
+	fired int // index of the case that was served (-1: none yet)
+	ws    []*waiter
+	chans []*Chan
+}
+
+// served is called when waiter w has been taken off a queue by the other side of the
+// communication: for a select case it records the winner and withdraws the sibling cases.
+func (s *Sched) served(w *waiter) {
+	if w.sel == nil {
+		return
+	}
+	w.sel.fired = w.idx
+	for i, o := range w.sel.ws {
+		if o == w {
+			continue
+		}
+		c := w.sel.chans[i]
+		c.recvq = dropWaiter(c.recvq, o)
+		c.sendq = dropWaiter(c.sendq, o)
+	}
+}
+
+func dropWaiter(q []*waiter, w *waiter) []*waiter {
+	for i, x := range q {
+		if x == w {
+			return append(q[:i:i], q[i+1:]...)
+		}
+	}
+	return q
+}
+
+type selCase struct {
+	c    *Chan
+	send bool
+	val  Value
+}
+
+// selectOp implements a select statement. Among several ready cases Go picks at random: the
+// pick is an explored choice. Returns the chosen index (-1: default), the received value and ok.
+func (s *Sched) selectOp(cases []selCase, blocking bool) (int, Value, bool) {
+	var ready []int
+	for i, k := range cases {
+		c := k.c
+		if c == nil {
+			continue
+		}
+		if k.send {
+			if c.closed || len(c.recvq) > 0 || len(c.buf) < c.cap {
+				ready = append(ready, i)
+			}
+		} else if len(c.buf) > 0 || len(c.sendq) > 0 || c.closed {
+			ready = append(ready, i)
+		}
+	}
+	if len(ready) > 0 {
+		i := ready[0]
+		if len(ready) > 1 {
+			i = ready[s.in.ex.Choose(len(ready), "select among ready cases")]
+		}
+		if cases[i].send {
+			s.send(cases[i].c, cases[i].val)
+			return i, nil, false
+		}
+		v, ok := s.recv(cases[i].c)
+		return i, v, ok
+	}
+	if !blocking {
+		return -1, nil, false
+	}
+	grp := &selGroup{fired: -1}
+	for i, k := range cases {
+		if k.c == nil {
+			continue
+		}
+		w := &waiter{g: s.cur, vc: vcCopy(s.cur.vc), sel: grp, idx: i}
+		if k.send {
+			w.val = k.val
+			k.c.sendq = append(k.c.sendq, w)
+		} else {
+			k.c.recvq = append(k.c.recvq, w)
+		}
+		grp.ws = append(grp.ws, w)
+		grp.chans = append(grp.chans, k.c)
+	}
+	vcTick(&s.cur.vc, s.cur.id)
+	s.block()
+	for _, w := range grp.ws {
+		if w.idx == grp.fired {
+			if w.closedPanic {
+				s.in.rtPanic("send on closed channel")
+			}
+			return w.idx, w.val, w.ok
+		}
+	}
+	panic("select: woken without a served case")
 }
 
 type Chan struct {
@@ -160,6 +262,7 @@ func (s *Sched) send(c *Chan, v Value) {
 	if len(c.recvq) > 0 {
 		w := c.recvq[0]
 		c.recvq = c.recvq[1:]
+		s.served(w)
 		w.val, w.ok = v, true
 		// the receive happens after the send; for an unbuffered channel the send completes after
 		// the receive started
@@ -202,6 +305,7 @@ func (s *Sched) recv(c *Chan) (Value, bool) {
 		if len(c.sendq) > 0 {
 			w := c.sendq[0]
 			c.sendq = c.sendq[1:]
+			s.served(w)
 			c.buf = append(c.buf, w.val)
 			c.bufVC = append(c.bufVC, w.vc)
 			s.makeRunnable(w.g)
@@ -211,6 +315,7 @@ func (s *Sched) recv(c *Chan) (Value, bool) {
 	if len(c.sendq) > 0 {
 		w := c.sendq[0]
 		c.sendq = c.sendq[1:]
+		s.served(w)
 		mine := vcCopy(s.cur.vc)
 		vcJoin(&s.cur.vc, w.vc)
 		if c.cap == 0 {
@@ -239,15 +344,25 @@ func (s *Sched) closeChan(c *Chan) {
 	vcTick(&s.cur.vc, s.cur.id)
 	c.closeVC = vcCopy(s.cur.vc)
 	defer vcTick(&s.cur.vc, s.cur.id)
-	for _, w := range c.recvq {
+	// (served may withdraw sibling select cases from these very queues: iterate over copies and
+	// skip the cases of a select that has been served already)
+	rq, sq := append([]*waiter(nil), c.recvq...), append([]*waiter(nil), c.sendq...)
+	c.recvq, c.sendq = nil, nil
+	for _, w := range rq {
+		if w.sel != nil && w.sel.fired >= 0 {
+			continue
+		}
+		s.served(w)
 		vcJoin(&w.g.vc, c.closeVC)
 		w.val, w.ok = copyVal(c.zero), false
 		s.makeRunnable(w.g)
 	}
-	c.recvq = nil
-	for _, w := range c.sendq {
+	for _, w := range sq {
+		if w.sel != nil && w.sel.fired >= 0 {
+			continue
+		}
+		s.served(w)
 		w.closedPanic = true
 		s.makeRunnable(w.g)
 	}
-	c.sendq = nil
 }
